@@ -31,7 +31,7 @@ type workload struct {
 	Reads map[int]string // request index -> collection (or object) id whose members are read
 	// ReadMember: for object reads, which member holds the collection ("likes"/"shares"/"")
 	ReadMember     map[int][]string
-	DupActivity    string // activity id delivered several times ("" if none)
+	DupActivity    string   // activity id delivered several times ("" if none)
 	DupInboxes     []string // inboxes it is delivered to (default: alice's)
 	ExpectDeadlock bool
 	OutboxIDs      bool // ids are issued per run: compare the outbox with the returned Location headers
